@@ -370,12 +370,7 @@ class Vocab:
             controlled = True
         if not controlled and rng.random() < 0.35:       # tagged classically controlled operations are rejected by the serializer
             tags = [self.tag(o.gate) for _ in range(rng.choice([1, 1, 2, 3]))]
-            if not allow_known or rng.random() > 0.1:
-                # the flag tags (PhysicalZTag, FSimViaModelTag, TwoPulseFSimTag) first: see known finding circuit:flag-tag-order
-                flags = [x for x in tags if type(x).__name__ in ('PhysicalZTag', 'FSimViaModelTag', 'TwoPulseFSimTag')]
-                if len({type(x).__name__ for x in flags}) > 1:
-                    flags = flags[:1]
-                tags = flags[:1] + [x for x in tags if x not in flags]
+            # flag tags (PhysicalZTag, FSimViaModelTag, TwoPulseFSimTag) in any position (finding circuit:flag-tag-order is fixed)
             if len({type(x).__name__ for x in tags} & {'FSimViaModelTag', 'TwoPulseFSimTag'}) < 2:
                 o = o.with_tags(*tags)
         pool.append(o)
@@ -574,7 +569,7 @@ class Adapter:
                 f'{coq.zlist(self._id(self.t, t) for t in o.tags)})')
 
     def moment(self, m):
-        m = self.canon(m)
+        m = self.rep.setdefault(('moment', m, tuple(m.tags)), m)     # _serialize_circuit keys a moment by (moment, moment.tags)
         return f'(Mom [{"; ".join(self.op(o) for o in m.operations)}] {coq.zlist(self._id(self.t, t) for t in m.tags)})'
 
     def circuit(self, c):
@@ -770,6 +765,11 @@ def circuits_stream(ctx, cirq, cg, n, shard=0):
         try:
             msg = S.serialize(c)
         except Exception as e:
+            if isinstance(e, ValueError) and 'confusion map' in str(e) and any(
+                    cirq.is_measurement(o) and getattr(o.gate, 'confusion_map', None) for o in all_ops(cirq, c)):
+                # the program format has no field for a confusion map: refused, not dropped (was finding circuit:measurement-confusion-map)
+                ctx.count('circuit:rejected', repr(c), True, sample=dict(circuit=str(c)[:300], rejected=str(e)[:120]))
+                continue
             explain_failure(ctx, cirq, S, norm, c, f'serialize raised {type(e).__name__}: {str(e)[:200]}')
             continue
         try:
@@ -908,6 +908,10 @@ def sweep_values(sw):
     return [sorted((str(k), float(v) if isinstance(v, (int, float)) and not isinstance(v, bool) else v) for k, v in t) for t in sw.param_tuples()]
 
 
+def hetero_listsweep(cirq, s):
+    return isinstance(s, cirq.ListSweep) and len({tuple(sorted(map(str, pr.param_dict))) for pr in s}) > 1
+
+
 def sweeps_stream(ctx, cirq, cg, v2, n):
     import gzip
     from cirq_google.api.v2 import run_context_pb2
@@ -927,6 +931,10 @@ def sweeps_stream(ctx, cirq, cg, v2, n):
         try:
             d = v2.sweep_from_proto(v2.sweep_to_proto(s, use_float64=f64))
         except Exception as e:
+            if isinstance(e, ValueError) and hetero_listsweep(cirq, s):
+                # not expressible as a zip of per-key points: refused, nothing is changed silently (was finding sweep:listsweep-heterogeneous)
+                ctx.count('sweep:rejected', repr(s), True, sample=dict(sweep=repr(s), rejected=str(e)[:120]))
+                continue
             ctx.violation('sweep:raises:' + type(e).__name__, f'sweep round trip raised {type(e).__name__}: {e} on {s!r}', rp)
             continue
         exp, got = sweep_desc(cirq, s, f64), sweep_desc(cirq, d, True)
@@ -982,6 +990,8 @@ def sweeps_stream(ctx, cirq, cg, v2, n):
                 exp_reps = reps if len(sl) == len(reps) else None
             else:
                 exp_reps = [reps] * len(sl)
+            if any(hetero_listsweep(cirq, e) for e in sl):
+                exp_reps = None          # refused by sweep_to_proto
             ok = (got_reps is None) == (exp_reps is None) and (got_reps is None or (
                 got_reps == exp_reps and [sweep_values(g) for g in got_sw] == [sweep_values(round_sweep(cirq, e, f64)) for e in sl]))
             ctx.count('run_context', [kind, repr(sweepable), repr(reps), compress, f64], isinstance(reps, list) and len(reps) > 1,
